@@ -80,3 +80,16 @@ Example C02_example :
   s_handle U t = ([([97], [9]); ([98], [6])],
                   (1, [RPut (Some ([97], [5])); RRange {| rr_kvs := [([97], [9])]; rr_more := false; rr_count := 1 |}])).
 Proof. vm_compute. reflexivity. Qed.
+
+(* ---- API layer end to end (Model/Api.v: KVServer -> Engine -> ActiveTable -> state machine) ---- *)
+From Verif Require Model.Api Proofs.ApiFacts.
+
+(* a read-only transaction is never proposed (ActiveTable.Txn: IsReadonly -> linearizable read).  It returns what
+   proposing it at any log position would have returned, and proposing it would not have changed the content *)
+Theorem C02_api_readonly_txn_as_if_proposed : forall (st : spec_state) (cs : list compare) (su fa : list request_op) (idx : N),
+  Validate.is_readonly (map Api.op_feat su) (map Api.op_feat fa) = true ->
+  let '(st', res) := Api.s_propose st idx (CTxn cs su fa) in
+  content st' = content st /\
+  (r_value res =? Constants.fsm_ResultSuccess, r_resps res) = s_lookup_txn (content st) cs su fa.
+Proof. exact ApiFacts.readonly_txn_as_if_proposed. Qed.
+Print Assumptions C02_api_readonly_txn_as_if_proposed.
